@@ -81,7 +81,7 @@ def gen_doc(r):
     ir = G.gen_ir(r, nparams=0 if ret_only else (1 if minimal else r.randint(1, 4)), none_ok=False, with_return=ret_only or ((r.random() < 0.6) and not minimal))
     paras = []
     for _ in range(r.randint(1, 3)):
-        paras.append("\n".join(r.sample(PROSE, r.randint(1, 2))))
+        paras.append(core.spice(r, "\n".join(r.sample(PROSE, r.randint(1, 2))), 0.2))  # dictionary-guided search (inactive on the unchanged tree)
     kw = None
     if r.random() < 0.25:
         kw = r.choice(sorted(KW_PROSE))
